@@ -294,7 +294,7 @@ def prod_isolation(e, tier="quick", ops=None):
 
 
 HISTORIES = ["open_add", "alloc", "claim", "open_add_sweep", "alloc_sweep_claim", "open_close_other",
-             "claim_list_open_close", "claim_list_release"]
+             "claim_list_open_close", "claim_list_release", "list_other_app"]
 
 
 def run_history(x, kind, sy):
@@ -352,6 +352,12 @@ def run_history(x, kind, sy):
         else:
             w.deliver(g, w.msg("release"))
         w.disconnect(g)
+    elif kind == "list_other_app":
+        # somebody of another application looks at its listing and asks for a nameplate
+        e.assume(sy["g.app"].z != b.app.z)
+        g = conn("gA", sy["g.app"], sy["g.side"])
+        w.deliver(g, w.msg("list"))
+        w.disconnect(g)
     elif kind == "open_close_other":
         g = conn("gA", b.app, sy["g.side"])
         w.deliver(g, w.msg("open", mailbox=sy["g.mid"]))
@@ -380,7 +386,7 @@ def prod_restart(e, tier="quick", ops=None, histories=None):
     cmd = make_cmd(e, op)
     hl = histories or HISTORIES
     hist = hl[e.choose(len(hl), "history")]
-    sy = {k: e.sym_str(k) for k in ("g.side", "h.side", "h.name", "g.phase", "g.body", "g.mid")}
+    sy = {k: e.sym_str(k) for k in ("g.side", "h.side", "h.name", "g.phase", "g.body", "g.mid", "g.app")}
     crowd = 0
     xa = build(e, crowd=crowd, acting=["none"], others=["none"], **bd)
     run_history(xa, hist, sy)
